@@ -111,6 +111,18 @@ func Sources(fn *ssa.Function, v ssa.Value) []ssa.Value {
 				}
 				return
 			}
+			// an element of a slice that was handed in / returned by a call: the slice's
+			// origin decides (the caller's argument, the callee's result)
+			if ia, ok := x.X.(*ssa.IndexAddr); ok {
+				switch r := rootOf(ia.X).(type) {
+				case *ssa.Parameter:
+					add(r)
+					return
+				case *ssa.Call:
+					add(r)
+					return
+				}
+			}
 			// a field of an object: the object decides
 			if fa, ok := x.X.(*ssa.FieldAddr); ok {
 				base := ssa.Value(fa)
@@ -167,10 +179,28 @@ func rootOfSeen(v ssa.Value, seen map[ssa.Value]bool) ssa.Value {
 		case *ssa.IndexAddr:
 			v = x.X
 		case *ssa.Phi:
+			// a loop-carried slice (`s = s[:len(s)-1]`): every edge leads back to one origin
+			var roots []ssa.Value
 			for _, e := range x.Edges {
-				if r := rootOfSeen(e, seen); IsLocalRoot(r) {
+				r := rootOfSeen(e, seen)
+				if IsLocalRoot(r) {
 					return r
 				}
+				if r == ssa.Value(x) {
+					continue
+				}
+				dup := false
+				for _, o := range roots {
+					if o == r {
+						dup = true
+					}
+				}
+				if !dup {
+					roots = append(roots, r)
+				}
+			}
+			if len(roots) == 1 {
+				return roots[0]
 			}
 			return v
 		case *ssa.Call:
